@@ -15,9 +15,12 @@ const (
 	kTLS     = "tls"     // key store of the management listener (hot reload)
 	kHTTPSig = "httpsig" // key store of the http_message_signatures endpoint auth strategy (hot reload)
 	kRules   = "rules"   // rule file below the watched directory of the file_system provider
-	kTrust   = "trust"   // trust store of a jwt authenticator (read when the mechanism is created)
-	kRemote  = "remote"  // scripted response of a remote system heimdall talks to while handling a request
-	kRequest = "request" // raw bytes sent to the decision / management / gRPC port
+	// kRulesEnv: the same, in a process whose file_system provider has env_vars_enabled (rule files go through
+	// drone/envsubst before they are parsed) and whose environment holds a handful of variables
+	kRulesEnv = "rules-env"
+	kTrust    = "trust"   // trust store of a jwt authenticator (read when the mechanism is created)
+	kRemote   = "remote"  // scripted response of a remote system heimdall talks to while handling a request
+	kRequest  = "request" // raw bytes sent to the decision / management / gRPC port
 )
 
 // inputSpec is one input of the fault enumeration. Derived inputs (truncations, bit flips) refer to
@@ -111,9 +114,13 @@ type inResult struct {
 	// ShapeChecks: a rule file made the previous rule set disappear without a logged rejection and was judged by ruleFileShape
 	ShapeChecks int `json:"shape_checks,omitempty"`
 	// WatcherErrors: errors delivered on the Errors channel of the secrets watcher's fsnotify instance
-	WatcherErrors int       `json:"watcher_errors,omitempty"`
-	Problems      []problem `json:"problems,omitempty"`
-	Notes         []string  `json:"notes,omitempty"`
+	WatcherErrors int `json:"watcher_errors,omitempty"`
+	// Expanded: rule files whose probed route exists only if an environment variable expression was replaced as expected
+	Expanded int `json:"expanded,omitempty"`
+	// Deep: depth-/size-extreme documents generated in the child from the input's recipe and handed to heimdall
+	Deep     int       `json:"deep,omitempty"`
+	Problems []problem `json:"problems,omitempty"`
+	Notes    []string  `json:"notes,omitempty"`
 }
 
 type doneMarker struct {
@@ -181,7 +188,7 @@ func crashSite(outputPath string) (sig, line, stack string) {
 	defer f.Close()
 	sc := bufio.NewScanner(f)
 	sc.Buffer(make([]byte, 1<<20), 1<<26)
-	var excerpt []string
+	var excerpt, ring []string
 	frame := ""
 	found := false
 	fatal := ""
@@ -198,12 +205,25 @@ func crashSite(outputPath string) (sig, line, stack string) {
 		if strings.HasPrefix(t, "fatal error: ") && fatal == "" {
 			fatal = t
 		}
-		if len(excerpt) < 60 {
+		inExcerpt := len(excerpt) < 60
+		if inExcerpt {
 			excerpt = append(excerpt, t)
+		} else if frame == "" {
+			ring = append(ring, t)
+			if len(ring) > 8 {
+				ring = ring[1:]
+			}
 		}
 		if frame == "" {
 			if m := frameLineRe.FindStringSubmatch(strings.TrimSpace(t)); m != nil {
 				frame = m[1]
+				if !inExcerpt {
+					// a long (recursive) stack: show where it enters heimdall, too
+					excerpt = append(append(excerpt, "[...]"), ring...)
+					if sc.Scan() {
+						excerpt = append(excerpt, sc.Text())
+					}
+				}
 			}
 		}
 		if frame != "" && len(excerpt) >= 60 {
